@@ -94,8 +94,13 @@ class AsyncContext(object):
         if is_asyncio_mode():
             self.pause()
         else:
-            leave_context(self, self._active_task)
-            self.pause()
+            active_task = self._active_task
+            leave_context(self, active_task)
+            # If the block is left because the generator of a suspended task is finalized
+            # (e.g. a computation was abandoned after an error), the scheduler has already
+            # paused this context: pausing it again would write stale saved state back.
+            if active_task is None or active_task._contexts_active:
+                self.pause()
             del self._active_task
 
     def resume(self):
